@@ -1,4 +1,5 @@
 import RF.Gen.ParseErrs
+import RF.Gen.ModArms
 import RF.Model.Project
 /-!
 The parse-error bookkeeping that decides whether a file "parsed" (C05).
@@ -229,39 +230,172 @@ def retToParse : Option Ret → Parse
   | some .parsePanicError => .panic
   | _ => .lexErr
 
+/-! #### what `find_external_module` does with a parse result (tables of `RF.Gen.ModArms`) -/
+open RF.Gen.ModArms
+
+/-- the arms of the match on a nested-path candidate and of the match on the default file -/
+structure ModProg where
+  alt : List MArm
+  dflt : List MArm
+
+def genMods : ModProg := ⟨altArms, dfltArms⟩
+
+/-- does the arm pattern match the result of `parse_file_as_module` (`skip`: the file has `#![rustfmt::skip]`) -/
+def patHolds : MPat → Option Ret → Bool → Bool
+  | .okSkip, some .ok, true => true
+  | .ok, some .ok, _ => true
+  | .errParse, some .parseError, _ => true
+  | .errAny, some .ok, _ => false
+  | .errAny, _, _ => true
+  | _, _, _ => false
+
+/-- first arm whose pattern and guard hold (`oe`: `outside_mods_empty`); no arm (the `match` would not
+compile): read as an error -/
+def selectM : List MArm → Option Ret → Bool → Bool → MAct
+  | [], _, _, _ => .fail
+  | a :: r, ret, sk, oe =>
+    if patHolds a.pat ret sk && (a.guard == .always || oe) then a.act else selectM r ret sk oe
+
+def toAltAct : MAct → AltAct
+  | .fail => .fail
+  | .use => .use
+  | .useWithOthers => .use
+  | .skip => .skip
+  | .registerDeclaringItem => .skip
+
+def toDfltAct : MAct → DfltAct
+  | .fail => .fail
+  | .skip => .none
+  | .use => .file
+  | .useWithOthers => .file
+  | .registerDeclaringItem => .declaringItem
+
+/-- the resolver has just seen `path.exists()` -/
+def existing (fp : FileParse) : FileParse := { fp with pathExists := true }
+
+/-- `find_mods_outside_of_ast`: every candidate's file is parsed, in order, until one makes the function
+return an error: what is decided for each, and the status of its file.  (The resolver has just seen
+`actual_path.exists()`.) -/
+def altDecisions (pp : ParseProg) (mp : ModProg) (pi : Nat → FileParse) : Alts → Sess → List (AltAct × Parse) × Sess
+  | .nil, s => ([], s)
+  | .cons _ (.node f _) rest, s =>
+    let r := parseFile pp s (existing (pi f.path))
+    let act := toAltAct (selectM mp.alt r.2 f.skipAttr true)
+    if act = .fail then ([(.fail, retToParse r.2)], r.1)
+    else
+      let a := altDecisions pp mp pi rest r.1
+      ((act, retToParse r.2) :: a.1, a.2)
+
+def decsFail (ds : List (AltAct × Parse)) : Bool := ds.any fun d => d.1 == .fail
+def decsAnyUse (ds : List (AltAct × Parse)) : Bool := ds.any fun d => d.1 == .use
+
+/-- the decisions written into the candidates (those after a failing one keep what they had) -/
+def applyDecs : Alts → List (AltAct × Parse) → Alts
+  | .nil, _ => .nil
+  | .cons a0 t rest, [] => .cons a0 t rest
+  | .cons _ (.node f m) rest, (act, p) :: dr => .cons act (.node { f with parse := p } m) (applyDecs rest dr)
+
 mutual
 /-- `visit_sub_mod` on a `mod m;` that resolved to this file: `parse_file_as_module` in the state left by
 everything parsed before; the children are parsed only if the file is accepted and has no
 `#![rustfmt::skip]`. -/
-def annT (pp : ParseProg) (pi : Nat → FileParse) : Tree → Sess → Tree × Sess
+def annT (pp : ParseProg) (mp : ModProg) (pi : Nat → FileParse) : Tree → Sess → Tree × Sess
   | .node f mods, s =>
     let r := parseFile pp s (pi f.path)
     let f' := { f with parse := retToParse r.2 }
     if r.2 = some .ok ∧ f.skipAttr = false then
-      let m := annM pp pi mods r.1
+      let m := annM pp mp pi mods r.1
       (.node f' m.1, m.2)
     else (.node f' mods, r.1)
-def annM (pp : ParseProg) (pi : Nat → FileParse) : Mods → Sess → Mods × Sess
+def annM (pp : ParseProg) (mp : ModProg) (pi : Nat → FileParse) : Mods → Sess → Mods × Sess
   | .nil, s => (.nil, s)
   | .found t rest, s =>
-    let a := annT pp pi t s
+    let a := annT pp mp pi t s
     if faultT a.1 then (.found a.1 rest, a.2)        -- `?`: nothing after it is parsed
     else
-      let m := annM pp pi rest a.2
+      let m := annM pp mp pi rest a.2
       (.found a.1 m.1, m.2)
-  | .skipped rest, s => let m := annM pp pi rest s; (.skipped m.1, m.2)
+  | .skipped rest, s => let m := annM pp mp pi rest s; (.skipped m.1, m.2)
   | .notFound rest, s => (.notFound rest, s)
   | .multiple rest, s => (.multiple rest, s)
+  | .cfgAttr alts dk _ (.node df dm) ghost rest, s =>
+    -- the candidates' files, then the default file, then (if resolution goes on) the `mod` items of the
+    -- candidates that were taken, those of the default file, and the rest of the declaring file
+    let a := altDecisions pp mp pi alts s
+    if decsFail a.1 then (.cfgAttr (applyDecs alts a.1) dk .fail (.node df dm) ghost rest, a.2)
+    else
+      let r := parseFile pp a.2 (existing (pi df.path))
+      let oe := !decsAnyUse a.1
+      let act : DfltAct :=
+        match dk with
+        | .found => toDfltAct (selectM mp.dflt r.2 df.skipAttr oe)
+        | .notFound => if oe then .fail else .candidates
+        | .multiple => if oe then .fail else .candidates
+      let s1 := if dk = .found then r.1 else a.2
+      let df' := if dk = .found then { df with parse := retToParse r.2 } else df
+      match act with
+      | .fail => (.cfgAttr (applyDecs alts a.1) dk .fail (.node df' dm) ghost rest, s1)
+      | .none =>
+        let m := annM pp mp pi rest s1
+        (.cfgAttr (applyDecs alts a.1) dk .none (.node df' dm) ghost m.1, m.2)
+      | .file =>
+        let c := annA pp mp pi alts a.1 s1
+        if faultA c.1 then (.cfgAttr c.1 dk .file (.node df' dm) ghost rest, c.2)
+        else
+          let d := annM pp mp pi dm c.2
+          if faultM d.1 then (.cfgAttr c.1 dk .file (.node df' d.1) ghost rest, d.2)
+          else
+            let m := annM pp mp pi rest d.2
+            (.cfgAttr c.1 dk .file (.node df' d.1) ghost m.1, m.2)
+      | .declaringItem =>
+        let c := annA pp mp pi alts a.1 s1
+        if faultA c.1 then (.cfgAttr c.1 dk .declaringItem (.node df' dm) ghost rest, c.2)
+        else
+          let m := annM pp mp pi rest c.2
+          (.cfgAttr c.1 dk .declaringItem (.node df' dm) ghost m.1, m.2)
+      | .candidates =>
+        let c := annA pp mp pi alts a.1 s1
+        if faultA c.1 then (.cfgAttr c.1 dk .candidates (.node df' dm) ghost rest, c.2)
+        else
+          let m := annM pp mp pi rest c.2
+          (.cfgAttr c.1 dk .candidates (.node df' dm) ghost m.1, m.2)
+/-- `visit_sub_mod_inner` on `MultiExternal`: the decisions written into the candidates, and the `mod` items of
+the candidates that were taken parsed in order -/
+def annA (pp : ParseProg) (mp : ModProg) (pi : Nat → FileParse) : Alts → List (AltAct × Parse) → Sess → Alts × Sess
+  | .nil, _, s => (.nil, s)
+  | .cons a0 t rest, [], s => (.cons a0 t rest, s)
+  | .cons _ (.node f m) rest, (.use, p) :: dr, s =>
+    let c := annM pp mp pi m s
+    if faultM c.1 then (.cons .use (.node { f with parse := p } c.1) (applyDecs rest dr), c.2)
+    else
+      let a := annA pp mp pi rest dr c.2
+      (.cons .use (.node { f with parse := p } c.1) a.1, a.2)
+  | .cons _ (.node f m) rest, (.fail, p) :: dr, s =>
+    let a := annA pp mp pi rest dr s
+    (.cons .fail (.node { f with parse := p } m) a.1, a.2)
+  | .cons _ (.node f m) rest, (.skip, p) :: dr, s =>
+    let a := annA pp mp pi rest dr s
+    (.cons .skip (.node { f with parse := p } m) a.1, a.2)
 end
 
-/-- The crate with every file's `parse` computed by the bookkeeping: `parse_crate` on the root in the fresh
-session, then (unless `skip_children`) the modules.  `pi` gives, per path, what the rustc parser does on that
-file. -/
-def annotateRoot (pp : ParseProg) (pi : Nat → FileParse) (cfg : Cfg) (root : Tree) : Tree :=
+/-- The crate with every file's `parse` and every decision of `find_external_module` computed by the
+generated tables: `parse_crate` on the root in the fresh session, then (unless `skip_children`) the modules.
+`pi` gives, per path, what the rustc parser does on that file. -/
+def annotateRoot (pp : ParseProg) (mp : ModProg) (pi : Nat → FileParse) (cfg : Cfg) (root : Tree) : Tree :=
   let r := parseCrate pp Sess.init (pi root.file.path)
   let f' := { root.file with parse := retToParse r.2 }
-  if r.2 = some .ok ∧ cfg.skipChildren = false then .node f' (annM pp pi root.mods r.1).1
+  if r.2 = some .ok ∧ cfg.skipChildren = false then .node f' (annM pp mp pi root.mods r.1).1
   else .node f' root.mods
+
+/-- some candidate's own file has a fault -/
+def altsFileFault (pi : Nat → FileParse) : Alts → Bool
+  | .nil => false
+  | .cons _ (.node f _) rest => (pi f.path).fault || altsFileFault pi rest
+
+/-- every candidate has `#![rustfmt::skip]` (in particular: there is none) -/
+def altsAllSkip : Alts → Bool
+  | .nil => true
+  | .cons _ (.node f _) rest => f.skipAttr && altsAllSkip rest
 
 mutual
 /-- a file with a fault that module resolution reaches below this sub-module -/
@@ -273,17 +407,29 @@ def faultEM (pi : Nat → FileParse) : Mods → Bool
   | .skipped rest => faultEM pi rest
   | .notFound _ => true
   | .multiple _ => true
+  | .cfgAttr alts dk _ (.node df dm) _ rest =>
+    altsFileFault pi alts ||
+    (match dk with
+     | .found => (pi df.path).fault || (!df.skipAttr && (faultEA pi alts || faultEM pi dm || faultEM pi rest)) ||
+                 (df.skipAttr && faultEM pi rest)
+     | .notFound => altsAllSkip alts || faultEA pi alts || faultEM pi rest
+     | .multiple => altsAllSkip alts || faultEA pi alts || faultEM pi rest)
+/-- a fault below a candidate that is taken -/
+def faultEA (pi : Nat → FileParse) : Alts → Bool
+  | .nil => false
+  | .cons _ (.node f m) rest => (!f.skipAttr && faultEM pi m) || faultEA pi rest
 end
 
 /-- **The root cannot be processed** (statement of C05, with the kinds of syntax error spelled out): the
-root file has a fault, or — unless `skip_children` — some file module resolution reaches has one, or a
-`mod` has no file or two. -/
+root file has a fault, or — unless `skip_children` — some file module resolution reaches has one (the default
+file of a `mod`, a `#[path]` target, a candidate of a nested `#[cfg_attr(.., path = "..")]`, anything below
+them), or a `mod` has no file or two. -/
 def faultyE (pi : Nat → FileParse) (cfg : Cfg) (root : Tree) : Bool :=
   (pi root.file.path).fault || (!cfg.skipChildren && faultEM pi root.mods)
 
 /-- `format_project` on a crate whose files are given by their diagnostics -/
-def runProjectE (pp : ParseProg) (pi : Nat → FileParse) (phases : List RF.Gen.Phases.Phase)
+def runProjectE (pp : ParseProg) (mp : ModProg) (pi : Nat → FileParse) (phases : List RF.Gen.Phases.Phase)
     (steps : List RF.Gen.Phases.FileStep) (ops : FileOps) (kind : RF.Gen.Emitters.EmitterKind) (cfg : Cfg) (root : Tree) : Result :=
-  runProject phases steps ops kind cfg (annotateRoot pp pi cfg root)
+  runProject phases steps ops kind cfg (annotateRoot pp mp pi cfg root)
 
 end RF.ParseErrors
